@@ -181,6 +181,9 @@ def project_sig(res, variant, wform="blind", sform="pinned"):
                 mm = CANC_RE.search(tx)
                 if mm:
                     zcanc = int(mm.group(1))
+        if len(ev) > 2 and ev[1] == "fputs" and ev[2] in ("1", "2") and (th == "Z" or (th.startswith("W") and th[1:].isdigit())) \
+                and (not L or L[-1] != "obs emit " + th):
+            L.append("obs emit " + th)          # who is inside a stdio call where (product model Dsh/SignalsOutput.lean)
         fe = sig_event(ev, sform)
         if fe is None and th.startswith("W") and len(ev) > 1 and ev[1] == "time" and stage.get(th) == "updT":
             fe = [th, "time"]       # the time() call inside _update_connect_state (precedes the state update)
